@@ -4,7 +4,7 @@ SDK_TRUST = "Cosmos-SDK (bank, staking, store, baseapp) is modelled, not verifie
 
 PROPS = {
     "C04": dict(
-        lean_modules=["PalomaModel.Props.C04", "PalomaModel.Props.Consts.C04", "PalomaModel.Props.Translated.C04"], gen=["Consts.lean", "ConstTable.lean", "Translated.lean"],
+        lean_modules=["PalomaModel.Props.C04", "PalomaModel.Props.Consts.C04", "PalomaModel.Props.Translated.C04", "PalomaModel.Props.Translated.C06"], gen=["Consts.lean", "ConstTable.lean", "Translated.lean"],
         harness_test="TestC04",
         extra_tests=[{"test": "TestC04Keeper", "dir": "C04K", "n_quick": 300, "n_thorough": 2500}],
         n_quick=3000, n_thorough=40000, thorough_seeds=8,
@@ -196,7 +196,7 @@ PROPS = {
         assumptions=["a fee grant is total delegation (the property says so); handlers classified `open` with a reason in Props/C03.lean: RemoveSmartContractDeployment, SetLegacyLightNodeClients (workflow state anyone may trigger)"],
     ),
     "C06": dict(
-        lean_modules=["PalomaModel.Props.C06", "PalomaModel.Props.Consts.Queue"], gen=["ConstTable.lean"],
+        lean_modules=["PalomaModel.Props.C06", "PalomaModel.Props.Consts.Queue", "PalomaModel.Props.Translated.C06"], gen=["ConstTable.lean", "Translated.lean"],
         harness_test="TestC06",
         n_quick=300, n_thorough=2500, thorough_seeds=6, timeout_quick=900,
         spec_ops=["*"],  # every observable the driver prints for this property is the property's own subject (canonical state / verdicts)
